@@ -271,10 +271,57 @@ def case_choice(ctx, inp):
     v2 = np.asarray(new_rng(da, api, seed).choice(a, size=size, replace=replace, chunks=(tuple(chunks),)).compute(scheduler="threads"))
     if not np.array_equal(v, v2):
         ctx.fail("choice with the same seed is not reproducible", observed=[v.tolist(), v2.tolist()])
+    # a second, identical call on the SAME generator is a separate draw: own name, own keys, own values
+    if not (not replace and size > len(population)):
+        y = rng.choice(a, size=size, replace=replace, chunks=(tuple(chunks),))
+        if y.name == x.name:
+            ctx.fail("two choice() calls on one generator share a name", observed=x.name)
+        kx = set(k for k in x.__dask_graph__().keys() if isinstance(k, tuple) and k[0] == x.name)
+        ky = set(k for k in y.__dask_graph__().keys() if isinstance(k, tuple) and k[0] == y.name)
+        if kx & ky:
+            ctx.fail("two choice() calls on one generator share output keys", observed=sorted(map(str, kx & ky))[:4])
+        bad = U.joint_vs_solo([x, y])
+        if bad:
+            ctx.fail("computing two choice() draws together differs from computing them alone", observed=bad)
+        if api == "gen":
+            # function level: the per-block bit generators are consecutive children of the generator's SeedSequence
+            def keys_of(arr):
+                return [list(t.args[0]._seed_seq.spawn_key) for t in block_tasks(arr)]
+            impl = [keys_of(x), keys_of(y)]
+            model = ctx.lean(Sym("rngcalls"), [], 0, [len(impl[0]), len(impl[1])])
+            ctx.eq("choice: per-block spawn keys of two successive calls", model[0], impl)
+        ctx.branch("second call on the same generator")
     ctx.branch(api)
 
 
-CASES = {"gen_calls": case_gen_calls, "rs_calls": case_rs_calls, "values": case_values, "unseeded": case_unseeded,
+def case_perm(ctx, inp):
+    da = _da()
+    api, seed, n, chunks = inp["api"], inp["seed"], inp["n"], inp["chunks"]
+    base = np.arange(n) * 3 - 5
+
+    def build(rng):
+        src = n if inp["from_int"] else da.from_array(base, chunks=(tuple(chunks),))
+        return rng.permutation(src)
+
+    rng = new_rng(da, api, seed)
+    x = build(rng)
+    v = np.asarray(x.compute(scheduler="sync"))
+    want = np.arange(n) if inp["from_int"] else base
+    if sorted(v.tolist()) != sorted(want.tolist()):
+        ctx.fail("permutation is not a permutation of its input", observed=v.tolist(), expected=want.tolist())
+    v2 = np.asarray(build(new_rng(da, api, seed)).compute(scheduler="threads"))
+    if not np.array_equal(v, v2):
+        ctx.fail("permutation with the same seed is not reproducible", observed=[v.tolist(), v2.tolist()])
+    y = build(rng)
+    bad = U.joint_vs_solo([x, y])
+    if bad:
+        ctx.fail("computing two permutations from one generator together differs from computing them alone", observed=bad)
+    if y.name == x.name and not np.array_equal(v, np.asarray(y.compute(scheduler="sync"))):
+        ctx.fail("two different permutations share a name", observed=x.name)
+    ctx.branch("permutation-" + api)
+
+
+CASES = {"perm": case_perm, "gen_calls": case_gen_calls, "rs_calls": case_rs_calls, "values": case_values, "unseeded": case_unseeded,
          "choice": case_choice}
 
 
@@ -287,7 +334,7 @@ def _shape_chunks(rng, maxd=3, maxn=6):
 
 def generate(ctx):
     rng = ctx.rng
-    for _ in range(ctx.n(250, 2500)):
+    for _ in range(ctx.n(200, 2500)):
         calls = []
         for _ in range(rng.randint(1, 4)):
             size, chunks = _shape_chunks(rng)
@@ -301,7 +348,7 @@ def generate(ctx):
             calls.append({"dist": rng.choice(list(RS_DISTS)), "size": size, "chunks": chunks})
         yield "rs_calls", {"seed": rng.randint(0, 2 ** 31), "calls": calls}
     nproc = 0
-    for _ in range(ctx.n(120, 1200)):
+    for _ in range(ctx.n(90, 1200)):
         api = rng.choice(["gen", "gen", "rs"])
         size, chunks = _shape_chunks(rng)
         scheds = ["threads"]
@@ -320,6 +367,10 @@ def generate(ctx):
         dist = rng.choice(list(RS_DISTS)) if how == "module" or api == "rs" else rng.choice(list(GEN_DISTS))
         yield "unseeded", {"api": "rs" if how == "module" else api, "dist": dist, "size": size, "chunks": chunks, "how": how,
                            "sched": rng.choice(["sync", "threads"])}
+    for _ in range(ctx.n(40, 400)):
+        n = rng.randint(1, 12)
+        yield "perm", {"api": rng.choice(["gen", "rs"]), "seed": rng.randint(0, 2 ** 31), "n": n,
+                       "chunks": list(U.rand_chunks_1d(rng, n)), "from_int": rng.random() < 0.4}
     for _ in range(ctx.n(120, 1200)):
         pop = rng.randint(1, 12) if rng.random() < 0.6 else rng.sample(range(-20, 20), rng.randint(1, 10))
         n = pop if isinstance(pop, int) else len(pop)
